@@ -151,6 +151,7 @@ func vpCheckNeverPruned(value any, mv vpMathVal) { vpCheckConversion(value, mv) 
 // Kernel (pure bit-vector): for ANY mathematical value, any index that covers its tight range
 // (which UpdateMinMaxIndex / first-row initialisation guarantee, see below) and any condition the
 // value satisfies, the block is kept.
+//
 //vp:bounds any value (int64 floor, fraction flag, beyond-int64 flags), any covering index, 11 operators (10 real + unknown), IN lists <= 2
 func H_C04_kernel_value_never_pruned() {
 	mv := vpMathVal{fl: nondetInt64(), frac: nondetBool()}
@@ -187,19 +188,19 @@ func vpUnsignedVal(x uint64) vpMathVal {
 }
 
 type (
-	vpNamedInt   int
-	vpNamedI8    int8
-	vpNamedI16   int16
-	vpNamedI32   int32
-	vpNamedI64   int64
-	vpNamedUint  uint
-	vpNamedU8    uint8
-	vpNamedU16   uint16
-	vpNamedU32   uint32
-	vpNamedU64   uint64
-	vpNamedUptr  uintptr
-	vpNamedF32   float32
-	vpNamedF64   float64
+	vpNamedInt  int
+	vpNamedI8   int8
+	vpNamedI16  int16
+	vpNamedI32  int32
+	vpNamedI64  int64
+	vpNamedUint uint
+	vpNamedU8   uint8
+	vpNamedU16  uint16
+	vpNamedU32  uint32
+	vpNamedU64  uint64
+	vpNamedUptr uintptr
+	vpNamedF32  float32
+	vpNamedF64  float64
 )
 
 //vp:bounds every built-in signed integer kind, full value range, 11 operators (10 real + unknown), IN lists <= 2, arbitrary previous index
@@ -333,6 +334,7 @@ func H_C04_nan_not_indexed() {
 
 // Merge: the range recorded for a merged block covers the ranges of both sources, so every
 // condition that kept a source block keeps the merged block.
+//
 //vp:bounds two arbitrary source ranges (Min<=Max each), all operators
 func H_C04_merged_range_keeps_what_sources_kept() {
 	a := MinMaxIndex{Min: nondetInt64(), Max: nondetInt64()}
